@@ -112,7 +112,7 @@ def roundtrip_cases(case: Dict[str, Any]):
     return out
 
 
-def _drawing(src_fn: Any, offsets: Any = None) -> Dict[str, Any]:
+def _drawing(src_fn: Any, offsets: Any = None, codes: Any = None) -> Dict[str, Any]:
     from . import dot
 
     out: Dict[str, Any] = {"exc": "", "nodes": {}, "clusters": {}, "solid": [], "dashed": [], "parseexc": ""}
@@ -133,6 +133,11 @@ def _drawing(src_fn: Any, offsets: Any = None) -> Dict[str, Any]:
         offs = [int(m.group(1)) for ln in f["lines"] for m in [re.match(r"^(\d+): [A-Z_0-9]+$", ln)] if m]
         out["nodes"][n] = {"cluster": r["cluster"], "lname": f["name"], "asg": f["asg"], "var": f["var"], "tab": f["tab"],
                            "offs": offs if offsets is not None else [], "expoffs": (offsets.get(n, []) if offsets is not None else [])}
+        if codes is not None and n in codes:
+            # payload summary of an AST block: its statements as source text (everything in the label that is not the name or the
+            # "jump targets: / back edges:" lines)
+            out["nodes"][n]["offs"] = [ln for ln in f["lines"] if not ln.startswith(("jump targets:", "back edges:"))]
+            out["nodes"][n]["expoffs"] = codes[n]
     for n, r in d["clusters"].items():
         out["clusters"][n] = {"parent": r["parent"], "lname": dot.label_facts(r["label"])["name"]}
     out["solid"] = [[a, b] for a, b, st in d["edges"] if st != "dashed"]
@@ -147,7 +152,17 @@ def render(stage: str, scfg: Any, inp: Any) -> Dict[str, Any]:
     logging.disable(logging.CRITICAL)
     from numba_scfg.rendering.rendering import ByteFlowRenderer, SCFGRenderer
 
-    out = {"scfg": _drawing(lambda: SCFGRenderer(scfg).render_scfg().source)}
+    codes = None
+    if inp.get("dom") == "S":
+        import ast
+
+        from numba_scfg.core.datastructures.basic_block import PythonASTBlock
+
+        codes = {}
+        for name, b in scfg:
+            if isinstance(b, PythonASTBlock):
+                codes[str(name)] = [ln.strip() for node in b.tree for ln in ast.unparse(node).split("\n") if ln.strip()]
+    out = {"scfg": _drawing(lambda: SCFGRenderer(scfg).render_scfg().source, codes=codes)}
     if inp.get("dom") == "B":
         import dis
 
